@@ -136,3 +136,56 @@ impl Types for STypes {
         payload.len() as u64
     }
 }
+
+/// Payload for the `open` harnesses: same wire format as `P`, padded in memory
+/// so that `Append` (not `State`) is the largest variant of `WALRecord`. With
+/// `P`, rustc encodes the discriminant of `WALRecord<KTypes>` in the niche of an
+/// Option tag inside the `State` variant, and CBMC cannot constant-fold the
+/// discriminant of `Result<(Segment, WALRecord<_>), io::Error>` read from that
+/// niche (measured: every `match` on the result of `RecordIterator::next` was
+/// explored in all three arms). With an explicit tag byte it can.
+#[derive(Debug, Clone, Copy, PartialEq, Eq, Default)]
+pub(crate) struct PP {
+    pub n: u8,
+    pub b: u8,
+    pub pad: [u8; 14],
+}
+
+impl PP {
+    pub(crate) fn new(n: u8, b: u8) -> PP {
+        PP { n, b, pad: [0; 14] }
+    }
+}
+
+impl codeq::Encode for PP {
+    fn encode<W: io::Write>(&self, w: W) -> Result<usize, io::Error> {
+        P { n: self.n, b: self.b }.encode(w)
+    }
+}
+
+impl codeq::Decode for PP {
+    fn decode<R: io::Read>(r: R) -> Result<Self, io::Error> {
+        let p = P::decode(r)?;
+        Ok(PP::new(p.n, p.b))
+    }
+}
+
+/// `KTypes` with the padded payload.
+#[derive(Debug, Clone, PartialEq, Eq, Default)]
+pub(crate) struct OTypes;
+
+impl Types for OTypes {
+    type LogId = (u8, u8);
+    type LogPayload = PP;
+    type Vote = (u8, u8);
+    type Callback = GhostCb;
+    type UserData = u8;
+
+    fn log_index(log_id: &Self::LogId) -> u64 {
+        log_id.1 as u64
+    }
+
+    fn payload_size(payload: &Self::LogPayload) -> u64 {
+        payload.n as u64
+    }
+}
